@@ -31,15 +31,17 @@ theorem isAmbiguous_of_sem (g : GenericZone) (stdOff saving off lo hi : Int) (hs
   by_cases a : w < off <;> by_cases c : w < off + saving <;> simp [a, c] <;> omega
 
 /-- **GenericZone round trip.**  `t` is a UTC instant whose standard-time reading `x = t + stdOff`
-    and `x + saving` lie in the window; at the UTC reading itself only `utcoffset − dst = stdOff`
-    is needed (what `_fromutc` computes first).  Then `fromutc t` reports `utcoffset = wall − t`,
+    lies in the window — and, when it is below `off` (daylight time), also `x + saving`; at the UTC
+    reading itself only `utcoffset − dst = stdOff` is needed (what `_fromutc` computes first).  With
+    `off + saving ≤ hi` the second condition is automatic, so consecutive windows `[on, nextOn)` tile
+    the timeline, including the last `saving` seconds of standard time before each onset.  Then `fromutc t` reports `utcoffset = wall − t`,
     converts back to `t`, adds the daylight offset exactly when `x < off`, and sets fold=1 exactly
     on the standard side of the repeated interval. -/
 theorem roundtrip (g : GenericZone) (stdOff saving off lo hi t : Int) (hs : 0 < saving)
     (hsem : CycleSem g stdOff saving off lo hi)
     (hamb : ∀ w, lo ≤ w → w < hi → g.isAmbiguous w = (decide (off ≤ w) && decide (w < off + saving)))
     (h0 : g.utcoffset ⟨t, false⟩ - g.dst ⟨t, false⟩ = stdOff)
-    (hx1 : lo ≤ t + stdOff) (hx2 : t + stdOff + saving < hi) :
+    (hx1 : lo ≤ t + stdOff) (hx2 : t + stdOff < hi) (hx3 : t + stdOff < off → t + stdOff + saving < hi) :
     g.utcoffset (g.fromutc t) = (g.fromutc t).wall - t ∧ g.toUtc (g.fromutc t) = t ∧
     (g.fromutc t).wall = (if t + stdOff < off then t + stdOff + saving else t + stdOff) ∧
     (g.fromutc t).fold = (decide (off ≤ t + stdOff) && decide (t + stdOff < off + saving)) := by
